@@ -66,6 +66,7 @@ class Tr:
         self.lists = set(spec.get('lists', []))
         self.notes = []
         self.loopn = 0
+        self.maskvars = {}
         import re as _re
         self.defined = set(p for p, _ in spec['params']) | set(_re.findall(r'let (\w+)', spec.get('prelude', '')))
 
@@ -164,7 +165,9 @@ class Tr:
             # a dictionary with literal keys: the tuple of its values, in key order
             if not all(isinstance(kx, ast.Constant) and isinstance(kx.value, str) for kx in node.keys):
                 raise Unsupported('dictionary ' + s)
-            self.notes.append('dictionary %s as the tuple of its values' % [kx.value for kx in node.keys])
+            note = 'dictionary %s as the tuple of its values' % [kx.value for kx in node.keys]
+            if note not in self.notes:
+                self.notes.append(note)
             return '(' + ', '.join(self.expr(v) for v in node.values) + ')'
         if isinstance(node, ast.ListComp):
             if len(node.generators) != 1 or node.generators[0].ifs or not isinstance(node.generators[0].target, ast.Name):
@@ -198,6 +201,18 @@ class Tr:
                 return self.expr(node.func.value)
             raise Unsupported('call ' + s)
         raise Unsupported('expression ' + s)
+
+    def mask_expr(self, node, jv):
+        f = src(node.func) if isinstance(node, ast.Call) else None
+        if f == 'numpy.logical_and' and len(node.args) == 2:
+            return '(%s && %s)' % (self.mask_expr(node.args[0], jv), self.mask_expr(node.args[1], jv))
+        if f == 'numpy.logical_not' and len(node.args) == 1:
+            return '(!%s)' % self.mask_expr(node.args[0], jv)
+        if isinstance(node, ast.Name) and node.id in self.maskvars:
+            return self.mask_expr(self.maskvars[node.id], jv)
+        if isinstance(node, ast.Name):
+            return '(Src.get %s %s)' % (self.expr(node), jv)
+        raise Unsupported('mask expression ' + src(node))
 
     def compare(self, left, op, right):
         if self.ty(right) == 'AR' and isinstance(op, ast.LtE):
@@ -340,6 +355,12 @@ class Tr:
             if extra:
                 val = '(%s, %s)' % (val, extra)
             return pre + ind + val + '\n'
+        if isinstance(st, ast.Assign) and len(st.targets) == 1 and isinstance(st.targets[0], ast.Name) \
+                and self.spec.get('masked_loops') and isinstance(st.value, ast.Call) \
+                and src(st.value.func) in ('numpy.logical_and', 'numpy.logical_not'):
+            # a boolean mask over the components: kept symbolic, read per component in the masked loops
+            self.maskvars[st.targets[0].id] = st.value
+            return nxt(ind)
         if isinstance(st, ast.Assign) and len(st.targets) == 1:
             t = st.targets[0]
             pre = self.with_draws(st.value, ind)
@@ -401,6 +422,24 @@ class Tr:
 
     def for_loop(self, st, rest, k, ind):
         it = st.iter
+        ml = self.spec.get('masked_loops')
+        if ml and isinstance(it, ast.Subscript) and src(it.value) == ml['over'] and isinstance(st.target, ast.Name):
+            # `for prop in self.proposals[<boolean mask>]:` -- a loop over the component index j with the
+            # body guarded by the mask at j; `prop`-expressions are bound per component in `per_item`
+            jv = ml['index']
+            cond = self.mask_expr(it.slice, jv)
+            saved = dict(self.bind)
+            for text, lean in ml['per_item'].items():
+                self.bind[text.replace('$v', st.target.id)] = lean.replace('$j', jv)
+            body_assigned = self.assigned(st.body)
+            carried = [c for c in self.spec['carried'] if c in body_assigned]
+            if sorted(carried) != sorted(body_assigned):
+                raise Unsupported('masked loop assigns %s' % body_assigned)
+            tup = '(' + ', '.join(carried) + ')' if len(carried) != 1 else carried[0]
+            body = self.block(list(st.body), lambda i: i + tup + '\n', ind + '      ')
+            self.bind = saved
+            return '%slet %s := Src.forIn (Src.rangeUp 0 %s) %s (fun %s %s =>\n%s    if %s then\n%s%s    else %s\n%s  )\n%s' % (
+                ind, tup, ml['count'], tup, jv, tup, ind, cond, body, ind, tup, ind, self.block(rest, k, ind))
         en = self.spec.get('enumerate', {})
         if src(st.target) + ' in ' + src(it) in en:
             # `for (i, obj) in enumerate(<objects>)`: the loop runs over the index; what is done to
@@ -608,6 +647,20 @@ KERNELS = [
                'numpy.isnan(ar)': 'ARX.isNan ar'},
          draws={'self.random_generator.uniform()': 'us'}, exp_fn='ARX.ofExp', exp_ty='ARX',
          raise_value='((false, ARX.nan), us)', ret_extra='us'),
+    # --- NestedTransdimensional._logpdf (C11): which densities the reported log-density sums
+    dict(name='tdLogpdf', file='epsie/proposals/nested_transdimensional.py', cls='NestedTransdimensional',
+         func='_logpdf',
+         params=[('K', 'Int'), ('indexDensity', 'Rat'), ('kxi', 'Int'), ('kgiven', 'Int'),
+                 ('current_state', 'List Bool'), ('proposed_state', 'List Bool'),
+                 ('birth', 'List Rat'), ('inModel', 'List Rat')], ret='Rat',
+         types={'lp': 'Rat'},
+         bind={'self.model_proposal.logpdf({self._index: xi[self._index]}, {self._index: givenx[self._index]})': 'indexDensity',
+               "givenx['_state']": 'current_state', "xi['_state']": 'proposed_state',
+               'xi[self._index]': 'kxi', 'givenx[self._index]': 'kgiven'},
+         masked_loops={'over': 'self.proposals', 'index': 'j', 'count': 'K',
+                       'per_item': {'$v.birth_distribution.logpdf({p: xi[p] for p in $v.parameters})': 'Src.get birth $j',
+                                    '$v.logpdf({p: xi[p] for p in $v.parameters}, {p: givenx[p] for p in $v.parameters})': 'Src.get inModel $j'}},
+         carried=['lp']),
     # --- Chain.step: what is evaluated, decided and written where (C01, C08, C18); the transdimensional
     #     bookkeeping (`_state` entries) is C10's model and is not translated here
     dict(name='stepCore', file='epsie/chain/chain.py', cls='Chain', func='step',
